@@ -35,7 +35,7 @@ class Spec(core.PropSpec):
     def gen_plan(self, seed, tier):
         st = core.Streams(seed)
         rw = st("world")
-        w = T.gen_world(rw, max_n=24, max_cfg=3)
+        w = T.gen_world(rw, max_n=24 if tier == "quick" else 48, max_cfg=3 if tier == "quick" else 5)
         if w["budget"][1] == 0:
             w["budget"][1] = rw.randint(1, 6)
         rf = st("faults")
